@@ -21,10 +21,10 @@ type Ident struct {
 // Func is a function call, an operator (Name is the ClickHouse function the operator maps to,
 // e.g. plus, equals, and, tupleElement, arrayElement, tuple, array, CAST) or an aggregate.
 type Func struct {
-	Name     string
-	Params   []Expr // parametric aggregates: quantile(0.5)(x) → Params=[0.5]
-	Args     []Expr
-	Distinct bool // count(DISTINCT x)
+	Name      string
+	Params    []Expr // parametric aggregates: quantile(0.5)(x) → Params=[0.5]
+	Args      []Expr
+	Distinct  bool // count(DISTINCT x)
 	HasParams bool
 }
 
@@ -98,24 +98,24 @@ type OrderItem struct {
 
 // SelectQuery is one SELECT.
 type SelectQuery struct {
-	With     []*WithItem
-	Distinct bool
-	Items    []Expr
-	From     *TableExpr
-	Joins    []*JoinClause
-	Prewhere Expr
-	Where    Expr
-	GroupBy  []Expr
-	GroupByAll bool
-	WithTotals bool
-	Having   Expr
-	OrderBy  []*OrderItem
-	LimitByN Expr
+	With          []*WithItem
+	Distinct      bool
+	Items         []Expr
+	From          *TableExpr
+	Joins         []*JoinClause
+	Prewhere      Expr
+	Where         Expr
+	GroupBy       []Expr
+	GroupByAll    bool
+	WithTotals    bool
+	Having        Expr
+	OrderBy       []*OrderItem
+	LimitByN      Expr
 	LimitByOffset Expr
-	LimitBy  []Expr
-	Limit    Expr
-	Offset   Expr
-	Settings map[string]string
+	LimitBy       []Expr
+	Limit         Expr
+	Offset        Expr
+	Settings      map[string]string
 }
 
 // SetOp is UNION ALL / UNION DISTINCT / INTERSECT / EXCEPT between two selects.
